@@ -158,9 +158,19 @@ def run_impl(case, h):
         tp = t - h                                            # sample k = integral over [t_k - h, t_k]
         gyro, accel = wsig.prim(t) - wsig.prim(tp), fsig.prim(t) - fsig.prim(tp)
     imu = pd.DataFrame(np.hstack([gyro, accel]), index=pd.Index(t, name='time'), columns=GYRO_COLS + ACCEL_COLS)
+    form = case.get('form', '')
+    if 'imucols' in form:
+        # the same labelled table in a logger's layout: an extra leading column, accelerometer channels first
+        imu = imu.assign(temperature=21.5)[['temperature'] + ACCEL_COLS + GYRO_COLS]
     inc = strapdown.compute_increments_from_imu(imu, case['kind'])
-    pva = pd.Series(list(case['lla']) + list(case['v']) + list(case['rph']), index=LLA_COLS + VEL_COLS + RPH_COLS,
-                    name=0.0)
+    if 'inccols' in form:
+        inc = inc[['theta_x', 'theta_y', 'theta_z', 'dv_x', 'dv_y', 'dv_z', 'dt']]
+    vals = list(case['lla']) + list(case['v']) + list(case['rph'])
+    if 'intpva' in form:
+        # an initial state given in whole numbers is stored by pandas as int64; it is the same state
+        assert all(float(x).is_integer() for x in vals)
+        vals = [int(x) for x in vals]
+    pva = pd.Series(vals, index=LLA_COLS + VEL_COLS + RPH_COLS, name=0.0)
     integ = strapdown.Integrator(pva)
     # the increments are integrated in consecutive calls (uneven chunks, fixed by the case): the solution must
     # not depend on the call history (C02), and a defect that only shows on later calls is exercised here too
@@ -319,6 +329,12 @@ def numeric_support(r, n_traj, n_fd, seed_off=0, n_long=0, n_gentle=0):
         case = make_case(rng, kind, long=('gentle' if i < n_gentle else (i < n_gentle + n_long)))
         if i >= n_gentle + n_long and i % 3 == 2:
             case.update(stepwise=True, T=2.0, h=max(case['h'], 0.01))
+        if i >= n_gentle + n_long and i % 3 == 1:
+            # argument forms: same inputs as labelled tables in another column layout / whole-number initial state
+            case['lla'] = [float(round(case['lla'][0])), float(round(case['lla'][1])), float(round(case['lla'][2]))]
+            case['v'] = [float(round(x)) for x in case['v']]
+            case['rph'] = [float(round(x)) for x in case['rph']]
+            case['form'] = 'imucols+inccols+intpva'
         bad, info = halving_case(case)
         e = info['err']
         ratios.append([max(e[k][g] / e[k + 1][g] for k in range(NLEV - 1)) if e[-1][g] > FLOOR0[g] * case.get('floor_scale', 1.0) else float('nan')
